@@ -140,6 +140,7 @@ class Checker:
     def __init__(self):
         self.fires = {}
         self.rebuilt = {}
+        self.state_ok = set()
 
     def fire(self, k, n=1):
         self.fires[k] = self.fires.get(k, 0) + n
@@ -147,7 +148,7 @@ class Checker:
     def __call__(self, st, env, op, ret):
         case = env.case
         probs = []
-        S = H.clone(st.tree)
+        S, raw_fp = H.clone_fp(st.tree)
         self.fire("wf_cost.structure")
         ps = H.structure_problems(S)
         if ps:
@@ -162,6 +163,18 @@ class Checker:
             want = {"contract_stats": tot, "total_flops": tot["flops"], "total_write": tot["write"], "max_size": tot["size"]}[name]
             if ret != want:
                 probs.append(f"{name}() returned {ret} != from-scratch {want}")
+        # every check below is a deterministic function of the complete state
+        # of the snapshot (and of the projections requested): a state that is
+        # byte-for-byte identical to one already found in order is not
+        # examined again
+        fp = (raw_fp, tuple(sorted(st.proj.items())))
+        if fp in self.state_ok:
+            self.fire("identical state already checked (comparison skipped)")
+            if st.orig is not None:
+                self.fire("copy-independence")
+                probs += ["copy: " + p for p in H.orig_problems(st)]
+            return probs
+        n_before = len(probs)
         # ---- pure inspection of the snapshot
         self.fire("wf_cost.slicing")
         probs += ["wf_cost: " + p for p in H.slicing_problems(S, case, st.proj)]
@@ -194,6 +207,8 @@ class Checker:
                 probs.append(f"{k}() asked first {indiv[k]} != from-scratch {tot[key]}")
         probs += diff_figures(fS, fR, "tree", "rebuilt tree")
         probs += spec_figures_problems(fS, spec, "tree")
+        if len(probs) == n_before:
+            self.state_ok.add(fp)
         if st.orig is not None:
             self.fire("copy-independence")
             probs += ["copy: " + p for p in H.orig_problems(st)]
